@@ -416,3 +416,18 @@ Example partial_guard_inhabited :
   valid_sig e = true /\ valid_sig a = true /\ kinds_ok e a = true /\ double_fill e a = false /\
   py_bind e 1 [3%N] = true.
 Proof. vm_compute. repeat split; reflexivity. Qed.
+
+(* overloads on either side: a call accepted by some overload of the expected side is
+   bound by some overload of the accepted side *)
+Theorem overloads_sound : forall es as_ npos kws,
+  (forall e, In e es -> valid_sig e = true) -> (forall a, In a as_ -> valid_sig a = true) ->
+  (forall e a, In e es -> In a as_ -> double_fill e a = false) ->
+  names_nodup kws = true -> ov_kinds_ok es as_ = true ->
+  (exists e, In e es /\ py_bind e npos kws = true) ->
+  exists a, In a as_ /\ py_bind a npos kws = true.
+Proof.
+  intros es as_ npos kws Hve Hva Hg Hk Hok (e & He & Hb).
+  unfold ov_kinds_ok in Hok. rewrite forallb_forall in Hok. specialize (Hok e He).
+  apply existsb_exists in Hok as (a & Ha & Hka). exists a. split; [exact Ha|].
+  eapply sig_assign_binds_partial; eauto.
+Qed.
